@@ -88,6 +88,30 @@ func c03Check(c c03Case) *kit.Fail {
 		return nil
 	}
 	want, err := strconv.ParseFloat(s, 64)
+	if exact, ok := c03Exact(s); ok {
+		// A very long plain decimal: the correctly rounded value is computed
+		// exactly. Where the standard parser itself is not correctly rounded
+		// (its multiprecision fallback loses the magnitude of integer digits
+		// beyond its 800-digit buffer) the statement's two descriptions of
+		// the value contradict each other and either value is admitted.
+		stdOK := err == nil && math.Float64bits(want) == math.Float64bits(exact)
+		stdRange := err != nil && math.IsInf(exact, 0)
+		if !stdOK && !stdRange {
+			kit.Count("C03 long decimals on which strconv itself is not correctly rounded (either value admitted)", 1)
+			if isRes && len(res.Values) == 1 {
+				got := res.Values[0].Value
+				if math.Float64bits(got) == math.Float64bits(exact) || (err == nil && math.Float64bits(got) == math.Float64bits(want)) {
+					return nil
+				}
+				return kit.Failf("value-wrong-long-mantissa", "got %v, exact value %v, strconv %v (%v) for a text of %d bytes %q", got, exact, want, err, len(s), c03Short(s))
+			}
+			if !isRes && math.IsInf(exact, 0) {
+				return nil
+			}
+			return kit.Failf("value-rejected-good", "exact value %v (strconv: %v, %v) but reader reported %v for %q", exact, want, err, recs[0], c03Short(s))
+		}
+		kit.Count("C03 long decimals checked against an exact rational oracle as well", 1)
+	}
 	if err != nil {
 		if isRes {
 			return kit.Failf("value-accepted-bad", "strconv.ParseFloat(%q) fails (%v) but reader produced %v", s, err, res.Values)
@@ -142,6 +166,110 @@ func c03NonTrivial(c c03Case) bool {
 		}
 	}
 	return !plain
+}
+
+// c03Exact returns the correctly rounded float64 of a plain decimal text
+// ([+-]digits[.digits][e[+-]digits], no underscores, hex or specials) with at
+// least 700 mantissa digits, computed exactly with big.Rat (Rat.Float64 rounds
+// once, to nearest even, subnormals included; overflow gives +-Inf).
+func c03Exact(s string) (float64, bool) {
+	t := s
+	if t != "" && (t[0] == '+' || t[0] == '-') {
+		t = t[1:]
+	}
+	digits, dots, i := 0, 0, 0
+	for ; i < len(t); i++ {
+		switch {
+		case t[i] >= '0' && t[i] <= '9':
+			digits++
+		case t[i] == '.':
+			dots++
+		default:
+			goto exp
+		}
+	}
+exp:
+	if digits < 700 || dots > 1 {
+		return 0, false
+	}
+	if i < len(t) {
+		if t[i] != 'e' && t[i] != 'E' {
+			return 0, false
+		}
+		e := t[i+1:]
+		if e != "" && (e[0] == '+' || e[0] == '-') {
+			e = e[1:]
+		}
+		if e == "" || len(e) > 5 {
+			return 0, false
+		}
+		for _, c := range e {
+			if c < '0' || c > '9' {
+				return 0, false
+			}
+		}
+	}
+	r, ok := new(big.Rat).SetString(s)
+	if !ok {
+		return 0, false
+	}
+	f, _ := r.Float64()
+	return f, true
+}
+
+func c03Short(s string) string {
+	if len(s) > 60 {
+		return s[:25] + "..." + s[len(s)-30:]
+	}
+	return s
+}
+
+// c03LongMantissa: 700-1700 mantissa digits (dense around the 800-digit
+// buffer of the multiprecision parser), with the point absent, at either end
+// or anywhere inside, and an exponent that brings the value into (or just
+// outside) the float64 range.
+func c03LongMantissa(r *kit.Rand) string {
+	nd := r.Range(700, 1700)
+	if r.Chance(0.6) {
+		nd = r.Range(795, 808)
+	}
+	d := []byte(c03Digits(r, nd))
+	if d[0] == '0' && r.Chance(0.8) {
+		d[0] = '1' + byte(r.Intn(9))
+	}
+	if r.Chance(0.2) { // long run of zeros at the end: nothing is truncated
+		for k := r.Range(len(d)-40, len(d)-1); k < len(d); k++ {
+			d[k] = '0'
+		}
+	}
+	intDigits := nd
+	m := string(d)
+	switch r.Intn(5) {
+	case 0:
+		intDigits = r.Range(0, nd)
+		m = m[:intDigits] + "." + m[intDigits:]
+	case 1:
+		m += "."
+	case 2:
+		intDigits = r.Range(nd-12, nd)
+		m = m[:intDigits] + "." + m[intDigits:]
+	}
+	// decimal exponent of the value is about intDigits+e
+	target := r.Range(-330, 312)
+	switch r.Intn(6) {
+	case 0:
+		target = r.Range(-345, -300)
+	case 1:
+		target = r.Range(300, 312)
+	case 2:
+		target = r.Range(-3, 25)
+	}
+	e := target - intDigits
+	s := c03Sign(r) + m
+	if e != 0 || r.Bool() {
+		s += kit.Pick(r, []string{"e", "E"}) + strconv.Itoa(e)
+	}
+	return s
 }
 
 func c03Digits(r *kit.Rand, n int) string {
@@ -575,6 +703,7 @@ func TestVerifC03(t *testing.T) {
 		c03Class("inf-nan", 20000, 500000, 40, c03Special),
 		c03Class("integer", 80000, 4000000, 20000, c03Integer),
 		c03Class("soup", 100000, 5000000, 100, c03Soup),
+		c03Class("long-mantissa", 6000, 300000, 3000, c03LongMantissa),
 		kit.Class[c03SeqCase]{
 			Name: "sequences-one-reader", Quick: 40000, Thorough: 2000000,
 			Gen: c03SeqGen, Check: c03SeqCheck, NonTrivial: c03SeqNonTrivial, MinNonTrivial: 5000,
